@@ -47,7 +47,7 @@ pub fn gen_value(rng: &mut Rng, depth: usize, hostile: bool) -> DataValue {
         0 => DataValue::Null,
         1 => DataValue::Bool(rng.chance(1, 2)),
         2 | 3 => DataValue::Int(*rng.pick(&[-1isize, 0, 1, 5, 42, isize::MAX, isize::MIN])),
-        4 => DataValue::Float(*rng.pick(&[0.5f64, -0.0, 5.0, 1e300, -2.25, 3.0e-7])),
+        4 => DataValue::Float(*rng.pick(&[0.5f64, -0.0, 5.0, 1e300, -2.25, 3.0e-7, 1e-10, f64::MIN_POSITIVE, 0.1 + 0.2, 16777217.0])),
         5 | 6 | 7 => DataValue::String(gen_string_value(rng, hostile)),
         8 => gen_datetime(rng),
         _ => {
